@@ -437,21 +437,31 @@ class ProbeTimeout(Exception):
     pass
 
 
+_LIMITS: List[Tuple[float, type]] = []
+
+
+def _on_tick(signum, frame):
+    now = time.time()
+    for deadline, exc in _LIMITS:          # outermost first
+        if now >= deadline:
+            raise exc("time limit exceeded")
+
+
 @contextlib.contextmanager
-def inner_limit(seconds: int):
-    """Time limit for one probe call that can be nested inside vlib.time_limit."""
-    def handler(signum, frame):
-        raise ProbeTimeout(f"call did not return within {seconds}s")
-    old = signal.signal(signal.SIGALRM, handler)
-    remaining = signal.alarm(seconds)
-    t0 = time.time()
+def limit(seconds: float, exc: type):
+    """Nestable time limit.  A repeating timer is used because an exception raised from a signal
+    handler is swallowed when it lands in a weakref callback or __del__ (IH5 loops create many)."""
+    _LIMITS.append((time.time() + seconds, exc))
+    old = signal.signal(signal.SIGALRM, _on_tick) if len(_LIMITS) == 1 else None
+    signal.setitimer(signal.ITIMER_REAL, 0.25, 0.25)
     try:
         yield
     finally:
-        signal.alarm(0)
-        signal.signal(signal.SIGALRM, old)
-        if remaining:
-            signal.alarm(max(1, remaining - int(time.time() - t0)))
+        _LIMITS.pop()
+        if not _LIMITS:
+            signal.setitimer(signal.ITIMER_REAL, 0)
+            if old is not None:
+                signal.signal(signal.SIGALRM, old)
 
 
 OP_METHOD = {"mkgrp": "create_group", "reqgrp": "require_group", "mkds": "create_dataset",
@@ -676,7 +686,7 @@ def probe_protocol(env, only: Optional[str] = None) -> Tuple[List[dict], Dict[st
                     res, exc = None, None
                     what = dict(base, shape=sname, path=R)
                     try:
-                        with inner_limit(PROBE_CALL_LIMIT):
+                        with limit(PROBE_CALL_LIMIT, ProbeTimeout):
                             res = f(*args, **kw)
                     except ProbeTimeout:
                         # not refused: the call went on working with the reserved path
@@ -746,7 +756,7 @@ def run_history(task) -> Dict[str, Any]:
             env["m"] = MetadorContainer(env["raw"])
 
         try:
-            with vlib.time_limit(task.get("limit", 300)):
+            with limit(task.get("limit", 300), vlib.CaseTimeout):
                 build(0)
                 plain = h5py.File(d / "plain.h5", "w")
                 env["reopen"] = reopen
@@ -916,7 +926,7 @@ def w_run(task):
 
 
 def sig_of(v: dict) -> dict:
-    return {"kind": v["kind"], "method": v.get("method")}
+    return {"kind": v["kind"], "method": v.get("method") if v["kind"] != "plain-mismatch" else None}
 
 
 def _same_finding(v, target) -> bool:
@@ -1014,7 +1024,7 @@ def run(ctx: vlib.Ctx):
     for e in list(errors):
         if e["error"] == "timeout":
             t = next(t for t in tasks if t["hist"] == e["hist"] and t["driver"] == e["driver"])
-            again = vlib.pmap(w_run, [dict(t, limit=900)], procs=1)[0]
+            again = vlib.pmap(w_run, [dict(t, limit=600)], procs=2)[0]
             if not again["error"]:
                 errors.remove(e)
 
